@@ -289,7 +289,7 @@ theorem RemInv.step (v : Addr) (s s' : Sys) (m : Msg) (rest subs : List Msg)
       subst e1; subst e2; subst e3; subst e4
       have hp := (rewardExec_plain _ _ _ _ _ _ _ _ _ hx').ok (v := v)
       exact fin (by rw [g]; exact inv.gone) hp.1 (by rw [dsame, hp.2]; simp [leaving])
-    | disp env sender funds dm heq hx' _ _ _ _ g =>
+    | disp env sender funds dm heq _ _ hx' _ _ _ _ g =>
       injection heq with e1 e2 e3 e4
       subst e1; subst e2; subst e3; subst e4
       have hp := (dispExec_plain _ _ _ _ _ _ _ hx').ok (v := v)
@@ -352,7 +352,7 @@ theorem C13_end_to_end (s s' : Sys) (sender v : Addr) (c : ChainOK s) (hh : s.re
     | bsei _ _ _ _ heq _ _ _ _ _ _ _ => injection heq with _ e2 _ _; cases e2
     | stsei _ _ _ _ heq _ _ _ _ _ _ => injection heq with _ e2 _ _; cases e2
     | reward _ _ _ _ heq _ _ _ _ _ _ _ _ _ => injection heq with _ e2 _ _; cases e2
-    | disp _ _ _ _ heq _ _ _ _ _ _ => injection heq with _ e2 _ _; cases e2
+    | disp _ _ _ _ heq _ _ _ _ _ _ _ _ => injection heq with _ e2 _ _; cases e2
     | reg s1 sender' funds rm heq hreg hmv hch hx' _ _ _ _ _ =>
       injection heq with e1 _ e3 e4
       injection e3 with e3
